@@ -102,7 +102,10 @@ Definition hy_quoted (is_bytes : bool) (base : text) : text :=
 Definition hy_str (s : text) : text := hy_quoted false (py_str_repr s).
 Definition hy_bytes (b : text) : text := hy_quoted true (py_bytes_repr b).
 
-Definition hy_bracket_str (br s : text) : text := [c_hash; c_lb] ++ br ++ [c_lb] ++ s ++ [c_rb] ++ br ++ [c_rb].
+(* the reader drops a newline right after the opening delimiter, so a leading newline is printed twice *)
+Definition lead_nl (s : text) : text := if starts_with [c_nl] s then [c_nl] else [].
+Definition hy_bracket_str (br s : text) : text :=
+  [c_hash; c_lb] ++ br ++ [c_lb] ++ lead_nl s ++ s ++ [c_rb] ++ br ++ [c_rb].
 
 Definition hy_float (f : fl) : text :=
   match f with
@@ -180,13 +183,17 @@ Definition expr_repr (ms : list model) (rs : list text) : text :=
 Definition double_braces (s : text) : text :=
   replace_c c_rc [c_rc; c_rc] (replace_c c_lc [c_lc; c_lc] s).
 
+(* the text of a format spec: String components as they are, the others as hy-repr prints them *)
+Definition spec_text (ms : list model) (rs : list text) : text :=
+  concat (map (fun mr => match fst mr with MStr s _ => s | _ => snd mr end) (combine ms rs)).
+
 Definition fcomp_repr (conv : option N) (ms : list model) (rs : list text) : text :=
-  [c_lc] ++ nth 0 rs []
+  let form := nth 0 rs [] in
+  [c_lc] ++ (if starts_with [c_lc] form then [ch_space] else []) ++ form
   ++ (match conv with Some c => [ch_space; c_bang; c] | None => [] end)
-  ++ (match ms, rs with
-      | _ :: MStr s _ :: _, _ => [ch_space; c_colon] ++ s          (* a String spec component is emitted as it is *)
-      | _ :: _ :: _, _ :: r1 :: _ => [ch_space; c_colon] ++ r1
-      | _, _ => []
+  ++ (match ms with
+      | _ :: _ :: _ => [ch_space; c_colon] ++ spec_text (tl ms) (tl rs)
+      | _ => []
       end)
   ++ [c_rc].
 
@@ -194,6 +201,7 @@ Definition fstr_repr (br : option text) (ts : bool) (ms : list model) (rs : list
   match br with
   | Some b =>
       [c_hash; c_lb] ++ b ++ [c_lb]
+      ++ (match ms with MStr s0 _ :: _ => lead_nl s0 | _ => [] end)
       ++ concat (map (fun mr => match fst mr with
                                 | MStr s _ => double_braces s
                                 | _ => snd mr
